@@ -217,6 +217,10 @@ func (e *env) learnOps(poolName string) error {
 				return fmt.Errorf("learn %s: expected one operator, got %q", tok, texts)
 			}
 			e.learn[texts[0]] = tok
+			if strings.HasPrefix(texts[0], "filter ") {
+				// the same predicate as a dag.Filter operator that is not pushed into the scan
+				e.learn["where "+strings.TrimPrefix(texts[0], "filter ")] = tok
+			}
 		}
 	}
 	return nil
